@@ -131,6 +131,14 @@ def do_triaxys(rec, rng, ws, xr, d, kind):
     ok, worst = close(got, t["E"][o], 1e-9 if t.get("vary_f0") else 1e-12, atol=1e-12 * float(np.abs(t["E"]).max()) if t.get("vary_f0") else 0.0)
     (rec.ok("triaxys", key, sample={"files": len(paths), "first_row": got[0, 0].ravel()[:3] if directional else got[0, :3]}) if ok else
      rec.bad("triaxys", key, {"worst_over_tol": worst}, "densities-differ:triaxys"))
+    if ok and rng.random() < 0.3:
+        # documented option: the logger's time-zone offset from UTC in hours; every stamp moves by it, nothing else changes
+        h_ = float(rng.choice([10.0, -8.0, 5.5, 12.0, -3.5]))
+        outz = reader(rec, "triaxys_toff", key, lambda: ws.read_triaxys(arg, toff=h_))
+        if outz is not None and times_ok(rec, "triaxys_toff", key + "|toff=%g" % h_, outz, np.asarray(t["time"]).astype("datetime64[m]") - np.timedelta64(int(round(h_ * 60)), "m"), "m"):
+            gz_ = outz["efth"].transpose("time", "freq", "dir").values if directional else outz["efth"].transpose("time", "freq").values
+            (rec.ok("triaxys_toff", key + "|toff=%g" % h_) if np.array_equal(gz_, got) else
+             rec.bad("triaxys_toff", key + "|toff=%g" % h_, {"toff": h_}, "time-offset-read-changes-densities"))
     if ok and directional and rng.random() < 0.4:
         # declination-corrected read (directions turned by the magnetic variation and regridded back onto the file's
         # direction axis): same times, frequencies and directions, and every record keeps the wave height the file holds
